@@ -193,6 +193,19 @@ func Contents(names []string) []Content {
 	add("allOf", "inline-complex", func(b *BundleSpec, s int) J {
 		return J{"allOf": []any{simpleObj("a1"), J{"type": "object", "properties": J{"extra": J{"type": "boolean"}}}}}
 	})
+	// schemas carrying every kind of annotation: moving, cloning or importing them must lose nothing
+	add("richObject", "inline-complex", func(b *BundleSpec, s int) J {
+		return J{"type": "object", "title": "Rich", "description": "rich object", "required": []any{"id"}, "x-ext": J{"k": []any{1, "two"}}, "x-nullable": true,
+			"example": J{"id": 1}, "default": J{"id": 0}, "readOnly": true, "minProperties": 1, "maxProperties": 9, "discriminator": "kind",
+			"externalDocs": J{"url": "http://x/docs", "description": "more"}, "xml": J{"name": "rich", "wrapped": true},
+			"properties": J{"id": J{"type": "integer", "format": "int64", "minimum": 1, "maximum": 99, "exclusiveMinimum": true, "multipleOf": 1},
+				"kind": J{"type": "string", "enum": []any{"a", "b"}, "pattern": "^[ab]$", "minLength": 1, "maxLength": 1, "x-go-name": "Kind"},
+				"tags": J{"type": "array", "items": J{"type": "string"}, "minItems": 1, "maxItems": 3, "uniqueItems": true}}}
+	})
+	add("richArray", "inline-simple", func(b *BundleSpec, s int) J {
+		return J{"type": "array", "description": "rich array", "x-order": 3, "minItems": 0, "maxItems": 7, "uniqueItems": true, "example": []any{"e"},
+			"items": J{"type": "string", "format": "date-time", "x-item": "i", "default": "d"}}
+	})
 	// deeper nesting (naming of inline schemas at depth, C03)
 	add("nestedObjects3", "inline-deep", func(b *BundleSpec, s int) J {
 		return J{"type": "object", "properties": J{"l1": J{"type": "object", "properties": J{"l2": J{"type": "object", "properties": J{"l3": simpleObj("deep")}}}}}}
@@ -401,6 +414,11 @@ func Contents(names []string) []Content {
 		}
 	}
 	// imports colliding by name with a root definition (imported definition is $ref-free)
+	add("refAuxRich", "ref-aux", func(b *BundleSpec, s int) J {
+		b.Add(AuxA, P(J{"type": "object", "title": "AuxRich", "description": "rich aux", "required": []any{"n"}, "x-aux": J{"deep": []any{J{"a": 1}}}, "example": J{"n": "x"}, "additionalProperties": false,
+			"properties": J{"n": J{"type": "string", "x-go-name": "N", "maxLength": 5}, "inner": J{"type": "object", "x-inner": true, "properties": J{"v": J{"type": "number", "default": 1.5}}}}}, "definitions", "auxRich"))
+		return J{"$ref": AuxA + "#/definitions/auxRich"}
+	}).Aux = true
 	for _, v := range []struct{ label, rootName, auxName string; two bool; body string }{
 		{"sameName", "thing", "thing", false, "complex"}, {"caseDifferent", "thing", "Thing", false, "complex"}, {"twoAtOnce", "thing", "thing", true, "complex"},
 		{"sameNameSimple", "thing", "thing", false, "simple"}, {"caseDifferentSimple", "Thing", "thing", false, "simple"},
